@@ -3,6 +3,7 @@ from ..owndb import contend, netsvc, osproxy, seqdb
 
 LEVEL = 'exploration'
 RULE = (
+    '(The boundary may also answer one stat / lstat / readlink / listdir of an operation - for the collector in 30% of its failpoint runs - with a transient EIO; an operation may fail with it or go on, every link it removes on the way is judged; os.path.exists of the three modules goes through the same boundary.) '
     'Five kinds of cases, chosen per case from the case rng. (vip|rule|spec) 25-70 (thorough: 25-140) generated operations on the real '
     'VipMgr / RuleMgr / EndpointsMgr over a real temp directory: 3-7 owners (unique container names; endpoint owners '
     'are incarnations of 1-3 instances) appear and disappear (owner path created / removed) at random points and never '
